@@ -91,6 +91,18 @@ public:
       specifier_begin = search_qns;
     }
 
+    if (specifier_begin != std::string::npos)
+    {
+      // the same specifier used twice is as invalid as two different ones
+      for (size_t i = AdditionalSpecifier::Qms; i <= AdditionalSpecifier::Qns; ++i)
+      {
+        if (_time_format.find(specifier_name[i], specifier_begin + 1) != std::string::npos)
+        {
+          QUILL_THROW(QuillError{"format specifiers %Qms, %Qus and %Qns are mutually exclusive"});
+        }
+      }
+    }
+
     if (specifier_begin == std::string::npos)
     {
       // If no additional specifier was found then we can simply store the whole format string
